@@ -218,6 +218,29 @@ CHECKS["C11"] = {
     ],
 }
 
+CHECKS["C14"] = {
+    "harness": "c14",
+    "level": "exploration",
+    "floor": {"quick": 100, "thorough": 500},
+    "timeout": {"quick": 1500, "thorough": 7200},
+    "assumptions": [
+        "normals/tangents are not compared for Skyrim shapes with a model-space shader (CloneShape drops them by design)",
+        "the skin instance's bone pointer list is compared through bone names (it is rebuilt from names by design)",
+    ],
+}
+
+CHECKS["C12"] = {
+    "harness": "c12",
+    "level": "exploration",
+    "floor": {"quick": 200, "thorough": 1000},
+    "timeout": {"quick": 1500, "thorough": 7200},
+    "assumptions": [
+        "weights are compared per vertex after normalisation with tolerance 2e-3 (half precision); at most 4 weights per vertex are generated so the top-4 selection is unambiguous",
+        "head-part conversion is only requested when every shape is dynamic-compatible",
+        "vertex colours may vanish when OptResult reports their removal (all white)",
+    ],
+}
+
 for _pid, _floor in (("C18", 1000), ("C19", 1000), ("C20", 1000)):
     CHECKS[_pid] = {
         "harness": _pid.lower(),
